@@ -81,7 +81,7 @@ def loc_key(draw, ixrec, allow_scalar=True):
             return {'t': 'label', 'v': labels[draw(st.integers(0, n - 1))]}
     if t == 'list':
         pos = draw(st.lists(st.integers(0, max(n - 1, 0)), max_size=n, unique=True)) if n else []
-        if n >= 3 and draw(st.integers(0, 3)) == 0:
+        if n >= 3 and draw(st.integers(0, 3)) == 3:
             # labels of one contiguous range of positions with a single adjacent swap
             a = draw(st.integers(0, n - 3))
             b = draw(st.integers(a + 3, n))
@@ -759,13 +759,13 @@ def extra_evidence(tier):
 
 
 SUBS = [
-    Sub('frame', frame_cases(), check_frame, quick=2500, thorough=64000, tag=tag_frame,
+    Sub('frame', frame_cases(), check_frame, quick=10000, thorough=64000, tag=tag_frame,
         rule='Frame iloc/loc/getitem vs list model'),
-    Sub('series', series_cases(), check_series, quick=2500, thorough=64000, tag=tag,
+    Sub('series', series_cases(), check_series, quick=10000, thorough=64000, tag=tag,
         rule='Series iloc/loc/getitem vs list model'),
-    Sub('bloc', bloc_cases(), check_bloc, quick=500, thorough=8000,
+    Sub('bloc', bloc_cases(), check_bloc, quick=2000, thorough=8000,
         rule='Frame.bloc vs {(row,col): value} mapping'),
-    Sub('go_selection', go_cases(), check_go, quick=1500, thorough=32000,
+    Sub('go_selection', go_cases(), check_go, quick=6000, thorough=32000,
         rule='selection on grow-only frames / indices straight after growth (16 key forms incl. partial dates) vs the same selection on a static twin'),
     Sub('slices_exhaustive', None, check_slice, quick=0, thorough=0, enum=enum_slices,
         rule='complete enumeration of positional slices on small axes (exhaustive sub-domain)'),
